@@ -44,7 +44,10 @@ static void gen_stmt(Gen *g) {
     ind(g);
     switch (k) {
     /* ---- mutations (allowed inside loops) ---- */
-    case 0: var(g, TS, x); var(g, TS, y); buf_printf(g->b, "if (< (str_length %s) 200) { set %s (+ %s %s) } else { set %s \"r\" }\n", x, x, x, y, x); break;
+    case 0: var(g, TS, x); var(g, TS, y);
+        if (gr(3) == 0) buf_printf(g->b, "if (< (str_length %s) 700) { set %s (+ %s \"x\") } else { set %s \"r\" }\n", x, x, x, x);   /* one byte at a time: every length */
+        else buf_printf(g->b, "if (< (str_length %s) 700) { set %s (+ %s %s) } else { set %s \"r\" }\n", x, x, x, y, x);
+        break;
     case 1: var(g, TS, x); var(g, TI, y); buf_printf(g->b, "set %s (+ (idS %s) (int_to_string %s))\n", x, x, y); break;
     case 2: var(g, TAI, x); var(g, TI, y); buf_printf(g->b, "if (< (array_length %s) 60) { set %s (array_push %s %s) }\n", x, x, x, y); break;
     case 3: var(g, TAI, x); var(g, TI, y); buf_printf(g->b, "if (> (array_length %s) 0) { set %s (array_pop %s) }\n", x, y, x); break;
